@@ -3979,6 +3979,15 @@ class OptionalNode(ActionSinkNode):
             # Whether the optional is taken is decided by the next byte, which needs a state that matches something
             raise IllegalDFAStateError("An optional must begin with a match, not with a condition or yield", sub_dfa.starting_state)
 
+        if sub_dfa.transitions_pointing_to(sub_dfa.starting_state):
+            # The start state doubles as "skip the optional": what follows is merged into it. A body that can come back to its own
+            # beginning (a wait restarting, a loop going round again) must not find that way out there: enter through a copy.
+            entry_state = DFState()
+            sub_dfa.add(entry_state)
+            for trans in sub_dfa.starting_state.transitions:
+                entry_state.transition(trans.copy(), collapse_else=False)
+            sub_dfa.starting_state = entry_state
+
         sub_dfa.mark_accepting(sub_dfa.starting_state)
 
         # Add starting actions
